@@ -233,6 +233,25 @@ def outline_ids(ctx, F):
            what="outline_child changes the shared id counter other than by += 1 (%s)" % ups)
 
 
+def content_edits(ctx, F):
+    """Appending content to a page keeps what is there: /Contents is either a reference to one stream or an array of them
+    (ISO 32000-1 Table 30; both are what get_page_contents reads), and add_page_contents carries both forms over into the new
+    array — a form it has no arm for falls into the default `vec![]` and the page's earlier content is dropped."""
+    ap = F.fn("Document::add_page_contents")
+    hv = set()
+    for x in lib.local_scope(F, ap):
+        hv |= lib.handled_variants(x, "object::Object")
+    gp = F.fn("Document::get_page_contents")
+    rv_ = set()
+    for x in lib.local_scope(F, gp):
+        rv_ |= lib.handled_variants(x, "object::Object")
+    need = {"Reference", "Array"}
+    ctx.ob("R-SIB", "contents-forms|add_page_contents", need <= hv, "add_page_contents has arms for %s (get_page_contents reads %s)" % (sorted(hv & need), sorted(rv_ & need)), ap.where(),
+           what="add_page_contents has no arm for /Contents given as %s: the content streams the page already has are replaced by the appended one (and pruned later) instead of being kept in front of it" % sorted(need - hv))
+    ctx.ob("R-SIB", "contents-forms|get_page_contents", need <= rv_, "get_page_contents reads a reference and an array", gp.where(),
+           what="get_page_contents no longer reads /Contents given as %s" % sorted(need - rv_))
+
+
 def op_place_(o):
     from mir import op_place
     return op_place(o)
@@ -240,6 +259,7 @@ def op_place_(o):
 
 def run(ctx):
     _run(ctx)
+    content_edits(ctx, ctx.facts("default"))
     # renumbering is an editing operation too: the structural rules of C10 are part of "editing keeps the document sound"
     import prop_c10
     prop_c10.run(ctx, dangling_clause=False)   # "a reference that resolved to nothing still resolves to nothing" is C10's clause, not C11's
